@@ -1,6 +1,8 @@
 import CLModel.Proto
 import CLModel.Paths.ProjectFiles
 import CLModel.Paths.ProjectFilesM
+import CLModel.Paths.TomlConfig
+import CLModel.Paths.IniConfig
 /-!
 Driver operations of C13.
 
@@ -220,6 +222,244 @@ def opRunM (toks : List String) : String :=
         | .ok looks => "ok|" ++ ";".intercalate (items.map showItem) ++ "|" ++ ";".intercalate looks
   | _ => "bad-args"
 
+/-! ### the TOML route: `TOMLParser` on the `toml.load` dictionaries (Paths/TomlConfig.lean)
+
+`<tv>`    = `S <text>` | `O` | `A <n> <tv>*` | `D <n> (<key text> <tv>)*`           (the output of `toml.load`)
+`<world>` = `<ignore 0|1> <cwd text> ENV <n> (<key> <value>)* W <n> (<path text> <tv>)*`
+
+`c13.toml.parse <world> <path text> <deep: - | L n text*>` : `TOMLParser().parse(path, env, ignore)` (then
+`set_locales(deep, deep=True)` unless `-`) as the canonical text of the `ProjectConfig` graph, or `err:<exception>`.
+
+`c13.toml.same <world> <path a> <world'> <path b>` : `parse(a).same(parse(b))`, the second parse after the files were rewritten to `<world'>`.
+
+`c13.toml.run <world> <locale|-> <mergebase text|-> P <n> <path text>* S <n> <text>* U <n> <sidx>* F <k> TT <n> <test name>* <root text>`
+runs `TC.projectFiles` / enumeration / lookups: same result format as `pf.run`, every path with the prefix `<root>` cut off
+the way the harness cuts the temp directory off (`!` + path if it is not below `<root>`), tests as indexes into `TT`. -/
+
+open TC in
+partial def tv : PM TV := do
+  let t ← tok
+  if t == "S" then do let s ← text; pure (.str s)
+  else if t == "O" then pure .other
+  else if t == "A" then do let l ← counted tv; pure (.arr l)
+  else if t == "D" then do let l ← counted (do let k ← text; let v ← tv; pure (k, v)); pure (.tbl l)
+  else failure
+
+structure WorldArgs where
+  ignore : Bool
+  env : TC.Env
+  w : TC.World
+
+def world : PM WorldArgs := do
+  let ig ← nat
+  let cwd ← text
+  expect "ENV"; let env ← counted kv
+  expect "W"; let fs ← counted (do let p ← text; let v ← tv; pure (p, v))
+  pure { ignore := ig == 1, env := env, w := { files := fs, cwd := cwd } }
+
+def showLocs : Option (List (List Nat)) → String
+  | none => "-"
+  | some l => " ".intercalate (s!"L {l.length}" :: l.map showText)
+
+def showOptText : Option (List Nat) → String
+  | some p => showText p
+  | none => "-"
+
+def showEnvList (e : TC.Env) : String :=
+  " ".intercalate (s!"E {e.length}" :: e.map fun kv => s!"{showText kv.1} {showText kv.2}")
+
+/-- a stored `Matcher(text, env=environ, root=root)`: root as stored, pattern text, `=` for "env is the config's environ" -/
+def showMatcher (cwd : List Nat) (root : Option (List Nat)) (t : List Nat) : String :=
+  s!"m {showOptText (TC.matcherRoot cwd root)} {showText t} ="
+
+def showPathD (cwd : List Nat) (root : Option (List Nat)) (d : TC.PathD) : String :=
+  let r := match d.reference with
+    | some t => showMatcher cwd root t
+    | none => "-"
+  let t := match d.test with
+    | some ts => " ".intercalate (s!"T {ts.length}" :: ts.map showText)
+    | none => "-"
+  s!"p {showMatcher cwd root d.l10n} {r} {t} {showLocs d.locales} {showOptText d.module}"
+
+def showRuleD (cwd : List Nat) (root : Option (List Nat)) (r : TC.RuleD) : String :=
+  let k := match r.key with
+    | some k => "k " ++ showText k.source
+    | none => "-"
+  s!"r {showMatcher cwd root r.path} {k} {showText r.action}"
+
+mutual
+partial def showPC (cwd : List Nat) : TC.PC → String
+  | .mk p root e ps rs ls ch ex =>
+    let c : TC.PC := .mk p root e ps rs ls ch ex
+    " ".intercalate ([s!"C {showOptText p} {showOptText root} {showEnvList e}", s!"P {ps.length}"] ++ ps.map (showPathD cwd root) ++
+      [s!"R {rs.length}"] ++ rs.map (showRuleD cwd root) ++ [showLocs ls, "A", showLocs (some c.allLocales),
+       s!"I {ch.length}"] ++ ch.map (showPC cwd) ++ [s!"X {ex.length}"] ++ ex.map (showPC cwd))
+end
+
+def showTCErr : TC.Err → String
+  | .configNotFound p => "err:ConfigNotFound " ++ showText p
+  | .keyError k => "err:KeyError " ++ showText k
+  | .excludeError => "err:ExcludeError"
+  | .recursion => "err:RecursionError"
+  | .matcher e => "err:matcher:" ++ showPyErr e
+  | .illTyped => "unsupported:ill-typed"
+
+def opTomlParse (toks : List String) : String :=
+  match (do let a ← world; let p ← text; let d ← locs; pure (a, p, d) : PM _).run toks with
+  | some ((a, p, deep), []) =>
+    match TC.parse a.w a.env a.ignore p with
+    | .error e => showTCErr e
+    | .ok pc =>
+      match deep with
+      | none => showPC a.w.cwd pc
+      | some ls => showPC a.w.cwd (pc.setLocalesDeep ls)
+  | _ => "bad-args"
+
+def opTomlSame (toks : List String) : String :=
+  match (do let a ← world; let p ← text; let b ← world; let q ← text; pure (a, p, b, q) : PM _).run toks with
+  | some ((a, p, b, q), []) =>
+    match TC.parse a.w a.env a.ignore p, TC.parse b.w b.env b.ignore q with
+    | .ok x, .ok y => if x.same y then "True" else "False"
+    | .error e, _ => showTCErr e
+    | _, .error e => showTCErr e
+  | _ => "bad-args"
+
+/-- the harness's `Strip`: cut the temp root off, `!` marks a path that is not below it -/
+def stripRoot (root p : Path) : String :=
+  if p == root || (root ++ [47]).isPrefixOf p then showText (p.drop root.length) else "!" ++ showText p
+
+def showTests (tt : List (List Nat)) (codes : List Nat) : String :=
+  let idx := codes.map fun c => tt.findIdx (· == PFM.decode c)
+  showText (idx.foldl (fun s x => setInsert x s) [])
+
+def showItemR (root : Path) (tt : List (List Nat)) (i : Item) : String :=
+  let o : Option Path → String := fun x => match x with | some p => stripRoot root p | none => "-"
+  s!"{stripRoot root i.path} {o i.reference} {o i.merge} {showTests tt i.test}"
+
+def lookupsR (root : Path) (tt : List (List Nat)) (o : PFM.Obj) : List Path → Except PFM.MErr (List String)
+  | [] => .ok []
+  | p :: ps =>
+    match o.matchM p with
+    | .error e => .error e
+    | .ok r =>
+      match lookupsR root tt o ps with
+      | .error e => .error e
+      | .ok rest => .ok ((match r with | some i => showItemR root tt i | none => "None") :: rest)
+
+def opTomlRun (toks : List String) : String :=
+  let p : PM _ := do
+    let a ← world
+    let loc ← optText
+    let mb ← optText
+    expect "P"; let cfgs ← counted text
+    expect "S"; let strs ← counted text
+    let sa := strs.toArray
+    let str : Nat → Path := fun i => match sa[i]? with | some p => p | none => missing
+    expect "U"; let u ← counted nat
+    expect "F"; let k ← nat
+    expect "TT"; let tt ← counted text
+    let root ← text
+    pure (a, loc, mb, cfgs, u.map str, k, tt, root)
+  match p.run toks with
+  | some ((a, loc, mb, cfgs, univ, k, tt, root), []) =>
+    match TC.projectFiles a.w a.env a.ignore cfgs loc mb with
+    | .error (.parse i e) => s!"parse-{i}:" ++ showTCErr e
+    | .error (.files e) => showMErr e
+    | .ok o =>
+      let fs : FS := { files := univ.take k }
+      match o.iterM fs with
+      | .error e => showMErr e
+      | .ok items =>
+        match lookupsR root tt o univ with
+        | .error e => showMErr e
+        | .ok looks => "ok|" ++ ";".intercalate (items.map (showItemR root tt)) ++ "|" ++ ";".intercalate looks
+  | _ => "bad-args"
+
+/-! ### the l10n.ini route (Paths/IniConfig.lean)
+
+`<inidoc>`   = `<depth|-> <all|-> <includes: - | n (<title> <path>)*> <dirs|-> <n> (<title> <mozilla> <l10n.ini>)*`
+`<iniworld>` = `<flavour: P | T <base> <n> (<from> <to>)*> <cwd> W <n> (<ini path> <inidoc>)* FL <n> <ini path>* LO <n> (<path> <n> <locale>*)*`
+
+`c13.ini.config <iniworld> <inipath> <l10nbase>` : `EnumerateApp(inipath, l10nbase).asConfig()` (resp. `EnumerateSourceTreeApp`)
+as the canonical text of the `ProjectConfig`, followed by ` FP <directory|->` (whose `filter.py` became `filter_py`), or `err:…`.
+
+`c13.ini.run <iniworld> <inipath> <l10nbase> <locale|-> <mergebase|-> S <n> <text>* U <n> <sidx>* F <k> TT <n> <test>* <root>` :
+`ProjectFiles(locale, [that config], mergebase)`, enumeration and lookups (format of `c13.toml.run`). -/
+
+def optPairsT : PM (Option (List (List Nat × List Nat))) := optPairs
+
+def inidoc : PM TI.IniDoc := do
+  let depth ← optText
+  let all ← optText
+  let incs ← optPairsT
+  let dirs ← optText
+  let det ← counted (do let a ← text; let b ← text; let c ← text; pure (a, b, c))
+  pure { depth := depth, all := all, includes := incs, dirs := dirs, details := det }
+
+def flavour : PM TI.Flavour := do
+  let t ← tok
+  if t == "P" then pure .plain
+  else if t == "T" then do let b ← text; let r ← counted kv; pure (.sourceTree b r)
+  else failure
+
+def iniworld : PM (TI.Flavour × TI.IniWorld) := do
+  let fl ← flavour
+  let cwd ← text
+  expect "W"; let inis ← counted (do let p ← text; let d ← inidoc; pure (p, d))
+  expect "FL"; let fs ← counted text
+  expect "LO"; let ls ← counted (do let p ← text; let l ← counted text; pure (p, l))
+  pure (fl, { inis := inis, filters := fs, locales := ls, cwd := cwd })
+
+def showIniErr : TI.Err → String
+  | .recursion => "err:RecursionError"
+  | .noOption => "err:NoOptionError"
+  | .openNone => "err:TypeError"
+  | .fileNotFound p => "err:FileNotFoundError " ++ showText p
+  | .matcher e => "err:matcher:" ++ showPyErr e
+
+def opIniConfig (toks : List String) : String :=
+  match (do let a ← iniworld; let p ← text; let b ← text; pure (a, p, b) : PM _).run toks with
+  | some (((fl, w), p, b), []) =>
+    match TI.enumerateApp w fl p b with
+    | .error e => showIniErr e
+    | .ok r => showPC w.cwd r.pc ++ " FP " ++ showOptText (r.filterFrom.map PF.dirname)
+  | _ => "bad-args"
+
+def opIniRun (toks : List String) : String :=
+  let p : PM _ := do
+    let a ← iniworld
+    let ini ← text
+    let base ← text
+    let loc ← optText
+    let mb ← optText
+    expect "S"; let strs ← counted text
+    let sa := strs.toArray
+    let str : Nat → Path := fun i => match sa[i]? with | some p => p | none => missing
+    expect "U"; let u ← counted nat
+    expect "F"; let k ← nat
+    expect "TT"; let tt ← counted text
+    let root ← text
+    pure (a, ini, base, loc, mb, u.map str, k, tt, root)
+  match p.run toks with
+  | some (((fl, w), ini, base, loc, mb, univ, k, tt, root), []) =>
+    match TI.enumerateApp w fl ini base with
+    | .error e => showIniErr e
+    | .ok r =>
+      let t := TC.toPFM { locale := loc, mergebase := mb, cwd := w.cwd } [r.pc]
+      match PFM.newM t.1 loc t.2 mb.isSome with
+      | .error e => showMErr e
+      | .ok o =>
+        let fs : FS := { files := univ.take k }
+        match o.iterM fs with
+        | .error e => showMErr e
+        | .ok items =>
+          match lookupsR root tt o univ with
+          | .error e => showMErr e
+          | .ok looks => "ok|" ++ ";".intercalate (items.map (showItemR root tt)) ++ "|" ++ ";".intercalate looks
+  | _ => "bad-args"
+
 def ops : List (String × (List String → String)) :=
-  [("pf.run", opRun), ("pf.env", opEnv), ("pfm.run", opRunM)]
+  [("pf.run", opRun), ("pf.env", opEnv), ("pfm.run", opRunM),
+   ("c13.toml.parse", opTomlParse), ("c13.toml.same", opTomlSame), ("c13.toml.run", opTomlRun),
+   ("c13.ini.config", opIniConfig), ("c13.ini.run", opIniRun)]
 end Ops.C13
